@@ -114,6 +114,12 @@ func crashSeams() {
 	ts := table.VerifGetSeams()
 	table.VerifSetSeams(table.VerifSeams{
 		NewBufioWriter: func(f string) (bufioutil.BufioWriter, error) {
+			if failCountdown > 0 {
+				failCountdown--
+				if failCountdown == 0 {
+					return nil, errInjected
+				}
+			}
 			w, err := ts.NewBufioWriter(f)
 			crec.At("create " + rel(f))
 			if err != nil {
@@ -130,10 +136,22 @@ func crashSeams() {
 type chistory struct {
 	Steps  []int `json:"steps"`
 	Series bool  `json:"series,omitempty"` // series ids of one metric in a MetricIndexDatabase instead of names in the metadata database
+	// Fail (series histories only), per step: k > 0 = the index flush of that step fails when it creates its k-th table
+	// file (the stores stay pending, the next step's flush is the retry); -1 = PrepareFlush runs, one more series is
+	// created, PrepareFlush runs again, then Flush
+	Fail []int `json:"fail,omitempty"`
 }
+
+// failCountdown > 0: the table-file creation that brings it to 0 fails (set around one index flush)
+var failCountdown int
+
+var errInjected = fmt.Errorf("injected: cannot create table file")
 
 func (h chistory) String() string {
 	if h.Series {
+		if len(h.Fail) > 0 {
+			return "series" + fmt.Sprint(h.Steps) + " disturbed-flush" + fmt.Sprint(h.Fail)
+		}
 		return "series" + fmt.Sprint(h.Steps)
 	}
 	return fmt.Sprint(h.Steps)
@@ -367,31 +385,45 @@ func recoverMeta(rep *vevid.Report, h chistory, p *vcrashfs.Point) {
 // different, whichever of the families made it to disk: new ids are seeded from the recovered postings, looked-up ones
 // come from the recovered dictionary.
 
-func seriesRow(host string) *metric.StorageRow {
-	rows, err := vbox.Rows([]vbox.Point{{Namespace: "ns", Metric: "m", Tags: map[string]string{"host": host}, Field: "f", Type: "sum", Value: 1, Timestamp: 1700000000000}})
+// ser is one created series: which of the two metrics it belongs to and the id it got
+type ser struct {
+	M  int    `json:"metric"`
+	ID uint32 `json:"id"`
+}
+
+var seriesMetrics = []string{"m", "m2"}
+
+func seriesRow(host string) *metric.StorageRow { return seriesRowOf(0, host) }
+
+func seriesRowOf(m int, host string) *metric.StorageRow {
+	rows, err := vbox.Rows([]vbox.Point{{Namespace: "ns", Metric: seriesMetrics[m], Tags: map[string]string{"host": host}, Field: "f", Type: "sum", Value: 1, Timestamp: 1700000000000}})
 	if err != nil {
 		vevid.Fatal("rows: %v", err)
 	}
 	return rows[0]
 }
 
-func openSeriesWorld(root string) (index.MetricMetaDatabase, index.MetricIndexDatabase, metric.ID, error) {
+func openSeriesWorld(root string) (index.MetricMetaDatabase, index.MetricIndexDatabase, [2]metric.ID, error) {
+	var mids [2]metric.ID
 	meta, err := index.NewMetricMetaDatabase("db", filepath.Join(root, "meta"))
 	if err != nil {
-		return nil, nil, 0, err
+		return nil, nil, mids, err
 	}
 	idx, err := index.NewMetricIndexDatabase(filepath.Join(root, "index"), meta)
 	if err != nil {
 		_ = meta.Close()
-		return nil, nil, 0, err
+		return nil, nil, mids, err
 	}
-	mid, err := meta.GenMetricID([]byte("ns"), []byte("m"))
-	if err != nil {
-		_ = idx.Close()
-		_ = meta.Close()
-		return nil, nil, 0, err
+	for i, name := range seriesMetrics {
+		mid, err := meta.GenMetricID([]byte("ns"), []byte(name))
+		if err != nil {
+			_ = idx.Close()
+			_ = meta.Close()
+			return nil, nil, mids, err
+		}
+		mids[i] = mid
 	}
-	return meta, idx, mid, nil
+	return meta, idx, mids, nil
 }
 
 func runSeriesCrashHistory(rep *vevid.Report, h chistory) {
@@ -409,15 +441,16 @@ func runSeriesCrashHistory(rep *vevid.Report, h chistory) {
 			viol("panic", "index", fmt.Sprint(r))
 		}
 	}()
-	meta, idx, mid, err := openSeriesWorld(dir)
+	meta, idx, mids, err := openSeriesWorld(dir)
 	if err != nil {
 		vevid.OpFailed("new meta db: %v", err)
 	}
 	crec = vcrashfs.NewRecorder(dir)
 	crec.Skip = func(rel string) bool { return strings.HasSuffix(rel, "LOCK") }
-	created := map[int]uint32{} // series number -> id
+	created := map[int]ser{} // series number -> metric, id
+	curMetric := 0           // histories with a disturbed flush cycle: the steps alternate between two metrics
 	crec.Note = func() interface{} {
-		cp := map[int]uint32{}
+		cp := map[int]ser{}
 		for k, v := range created {
 			cp[k] = v
 		}
@@ -426,21 +459,42 @@ func runSeriesCrashHistory(rep *vevid.Report, h chistory) {
 	crec.Pause()
 	closeAll := func() { _ = idx.Close(); _ = meta.Close() }
 	next := 0
-	for _, n := range h.Steps {
+	newSeries := func() bool {
+		id, err := idx.GenSeriesID(mids[curMetric], seriesRowOf(curMetric, fmt.Sprintf("h%d", next)))
+		if err != nil {
+			viol("create-failed", "index.GenSeriesID", err.Error())
+			closeAll()
+			return false
+		}
+		for k, other := range created {
+			if other.M == curMetric && other.ID == id {
+				viol("one-id-per-name", "index.GenSeriesID", fmt.Sprintf("series h%d and h%d of one metric share id %d", k, next, id))
+			}
+		}
+		created[next] = ser{curMetric, id}
+		next++
+		return true
+	}
+	for si, n := range h.Steps {
+		if len(h.Fail) > 0 {
+			curMetric = si % 2
+		}
+		fail := 0
+		if si < len(h.Fail) {
+			fail = h.Fail[si]
+		}
 		for i := 0; i < n; i++ {
-			id, err := idx.GenSeriesID(mid, seriesRow(fmt.Sprintf("h%d", next)))
-			if err != nil {
-				viol("create-failed", "index.GenSeriesID", err.Error())
-				closeAll()
+			if !newSeries() {
 				return
 			}
-			for k, other := range created {
-				if other == id {
-					viol("one-id-per-name", "index.GenSeriesID", fmt.Sprintf("series h%d and h%d of one metric share id %d", k, next, id))
-				}
+		}
+		if fail == -1 {
+			// a flush cycle that got as far as PrepareFlush; writing goes on, the next cycle starts with PrepareFlush again
+			meta.PrepareFlush()
+			idx.PrepareFlush()
+			if !newSeries() {
+				return
 			}
-			created[next] = id
-			next++
 		}
 		// production order: metadata first (names, tag keys and values durable), then the shard's index
 		meta.PrepareFlush()
@@ -452,9 +506,21 @@ func runSeriesCrashHistory(rep *vevid.Report, h chistory) {
 		idx.PrepareFlush()
 		crec.Resume()
 		crec.At("index flush starts")
+		if fail > 0 {
+			failCountdown = fail
+		}
 		err := idx.Flush()
+		injected := fail > 0 && failCountdown == 0
+		failCountdown = 0
 		crec.At("index flush returned")
 		crec.Pause()
+		if injected {
+			rep.Count("index_flushes_failed_by_injection", 1)
+			if err == nil {
+				rep.Count("index_flush_swallowed_injected_error", 1)
+			}
+			continue // the next step's flush is the retry
+		}
 		if err != nil {
 			viol("flush-failed", "index.MetricIndexDatabase.Flush", err.Error())
 			closeAll()
@@ -481,7 +547,7 @@ func runSeriesCrashHistory(rep *vevid.Report, h chistory) {
 
 func recoverSeries(rep *vevid.Report, h chistory, p *vcrashfs.Point) {
 	scen := "history=" + h.String()
-	created := p.Note.(map[int]uint32)
+	created := p.Note.(map[int]ser)
 	where := fmt.Sprintf("crash after seam call #%d [%s]: ", p.Seq, p.Label)
 	viol := func(clause, site, detail string) {
 		rep.Violate(vevid.Violation{Clause: clause, Scenario: scen, Site: site, Detail: where + detail, Replay: h})
@@ -492,7 +558,7 @@ func recoverSeries(rep *vevid.Report, h chistory, p *vcrashfs.Point) {
 	if err := p.Image.Materialize(dir); err != nil {
 		vevid.Fatal("materialize: %v", err)
 	}
-	meta, idx, mid, err := openSeriesWorld(dir)
+	meta, idx, mids, err := openSeriesWorld(dir)
 	if err != nil {
 		viol("reopen-failed", "index.NewMetricIndexDatabase", err.Error())
 		return
@@ -511,32 +577,36 @@ func recoverSeries(rep *vevid.Report, h chistory, p *vcrashfs.Point) {
 		order = append(order, i)
 	}
 	sort.Ints(order)
-	names := []string{"n0", "n1"}
-	for _, i := range order {
-		names = append(names, fmt.Sprintf("h%d", i))
+	type ask struct {
+		m    int
+		name string
+		n    int // series number, -1 = new
 	}
-	got := map[uint32]string{}
+	asks := []ask{{0, "n0", -1}, {0, "n1", -1}}
+	if len(h.Fail) > 0 {
+		asks = append(asks, ask{1, "n0", -1}, ask{1, "n1", -1})
+	}
+	for _, i := range order {
+		asks = append(asks, ask{created[i].M, fmt.Sprintf("h%d", i), i})
+	}
+	got := [2]map[uint32]string{{}, {}}
 	kept := 0
-	for _, name := range names {
-		id, err := idx.GenSeriesID(mid, seriesRow(name))
+	for _, a := range asks {
+		id, err := idx.GenSeriesID(mids[a.m], seriesRowOf(a.m, a.name))
 		if err != nil {
-			viol("create-after-recovery-failed", "index.GenSeriesID", name+": "+err.Error())
+			viol("create-after-recovery-failed", "index.GenSeriesID", a.name+": "+err.Error())
 			return
 		}
-		if other, dup := got[id]; dup {
-			viol("recovered-injective", "index.GenSeriesID", fmt.Sprintf("after recovery the series host=%s and host=%s of one metric both have series id %d (ids before the crash: %v)", other, name, id, created))
+		if other, dup := got[a.m][id]; dup {
+			viol("recovered-injective", "index.GenSeriesID", fmt.Sprintf("after recovery the series host=%s and host=%s of metric %s both have series id %d (ids before the crash: %v)", other, a.name, seriesMetrics[a.m], id, created))
 		}
-		got[id] = name
-		if strings.HasPrefix(name, "h") {
-			var n int
-			fmt.Sscanf(name, "h%d", &n)
-			if created[n] == id {
-				kept++
-			}
+		got[a.m][id] = a.name
+		if a.n >= 0 && created[a.n].ID == id {
+			kept++
 		}
 		// the same tag set again: the same id
-		if id2, err := idx.GenSeriesID(mid, seriesRow(name)); err != nil || id2 != id {
-			viol("stable-id", "index.GenSeriesID", fmt.Sprintf("series host=%s got id %d, asked again %d (%v)", name, id, id2, err))
+		if id2, err := idx.GenSeriesID(mids[a.m], seriesRowOf(a.m, a.name)); err != nil || id2 != id {
+			viol("stable-id", "index.GenSeriesID", fmt.Sprintf("series host=%s got id %d, asked again %d (%v)", a.name, id, id2, err))
 		}
 	}
 	rep.Outcome(fmt.Sprintf("series kept=%d of %d", kept, len(created)))
@@ -555,10 +625,12 @@ func runCrashPart(rep *vevid.Report, f *vevid.Flags) {
 		return
 	}
 	maxSteps, maxBatches := 3, 2
+	failKinds := []int{1, 3, -1}
 	if f.Thorough() {
 		maxSteps, maxBatches = 4, 3
+		failKinds = []int{1, 2, 3, 4, 5, -1}
 	}
-	rep.Rule = fmt.Sprintf("all histories of <=%d flush steps, each preceded by 0..%d batches of new names (a batch = one metric in one of two namespaces sharing a bucket, one field, one tag key, one tag value); a crash image after EVERY seam call of every MetricMetaDatabase.Flush (kv manifest/table writers, renames, sequence-file sync); every distinct image is reopened: names found keep their ids, recovered ids are injective, names created afterwards do not reuse a recovered id. The same histories with batches = new series (tag sets) of one metric in a MetricIndexDatabase: a crash image after every seam call of MetricIndexDatabase.Flush; after recovery two new series and every earlier series are looked up / created: different tag sets never share a series id, the same tag set keeps its id when asked again. evaluations = distinct images recovered", maxSteps, maxBatches)
+	rep.Rule = fmt.Sprintf("all histories of <=%d flush steps, each preceded by 0..%d batches of new names (a batch = one metric in one of two namespaces sharing a bucket, one field, one tag key, one tag value); a crash image after EVERY seam call of every MetricMetaDatabase.Flush (kv manifest/table writers, renames, sequence-file sync); every distinct image is reopened: names found keep their ids, recovered ids are injective, names created afterwards do not reuse a recovered id. The same histories with batches = new series (tag sets) of one metric in a MetricIndexDatabase: a crash image after every seam call of MetricIndexDatabase.Flush; after recovery two new series and every earlier series are looked up / created: different tag sets never share a series id, the same tag set keeps its id when asked again; every series history also with one disturbed flush cycle (the index flush fails when it creates its k-th table file and is retried by the next step, k in %v; -1 = PrepareFlush twice with a new series in between). evaluations = distinct images recovered", maxSteps, maxBatches, failKinds)
 	rep.Bounds["max_flush_steps"] = maxSteps
 	rep.Bounds["max_batches_per_step"] = maxBatches
 	var idx int64
@@ -577,6 +649,21 @@ func runCrashPart(rep *vevid.Report, f *vevid.Flags) {
 				idx++
 				if f.Mine(idx) && !f.Expired() {
 					runCrashHistory(rep, chistory{Steps: append([]int(nil), prefix...), Series: true})
+				}
+				// the same series history with ONE disturbed flush cycle: step j (which has new series, and is followed
+				// by a step with new series) fails at its k-th table file, or runs PrepareFlush twice
+				for j := 0; j+1 < len(prefix); j++ {
+					if prefix[j] == 0 || prefix[j+1] == 0 {
+						continue
+					}
+					for _, k := range failKinds {
+						idx++
+						if f.Mine(idx) && !f.Expired() {
+							fl := make([]int, len(prefix))
+							fl[j] = k
+							runCrashHistory(rep, chistory{Steps: append([]int(nil), prefix...), Series: true, Fail: fl})
+						}
+					}
 				}
 			}
 		}
